@@ -93,6 +93,59 @@ func c15RunRaw(cs c15Case) (fs []F) {
 		if df := sb.diff(b); df != "" {
 			fail("modified", "destination/receiver buffer: %s", df)
 		}
+	case "append0":
+		// the receiver is the zero value of the buffer type (no channels), the argument has C1 channels
+		key = "Append"
+		a := mk(s, cs.C1, 2, 3, 1)
+		b := dyn.ZeroBuf(s)
+		sa, hb := takeSnap(a), hdr(b)
+		if p, _ := dyn.Try(func() { b.Append(a) }); !p {
+			fail("no-panic", "zero-value buffer (0 channels) and a buffer with %d channels: no panic", cs.C1)
+		}
+		if df := sa.diff(a); df != "" {
+			fail("modified", "argument buffer: %s", df)
+		}
+		if h := hdr(b); h != hb {
+			fail("modified", "zero-value receiver: shape changed from %+v to %+v", hb, h)
+		}
+	case "puthuge":
+		// a very large foreign buffer (K2 samples, one channel) offered to a small pool
+		key = "PoolAllocator.Put"
+		ctl := poolctl.NewSeq(func(n int) int { return 0 })
+		defer ctl.Bind()()
+		pool := dyn.NewPool(s, al(cs.C1, 0, cs.K1))
+		g0 := pool.Get()
+		pool.Put(g0)
+		free0 := len(ctl.AllFree())
+		bad := dyn.Alloc(s, al(1, cs.K2, cs.K2))
+		const stride = 40961
+		for i := 0; i < cs.K2; i += stride {
+			bad.SetSample(i, dyn.Tok(s, tk(int64(i/stride+1))))
+		}
+		bad.SetSample(cs.K2-1, dyn.Tok(s, 7))
+		hb := hdr(bad)
+		if p, _ := dyn.Try(func() { pool.Put(bad) }); !p {
+			fail("no-panic", "pool of total capacity %d accepted a buffer of total capacity %d", cs.C1*cs.K1, cs.K2)
+		}
+		if h := hdr(bad); h != hb {
+			fail("modified", "rejected buffer: shape changed from %+v to %+v", hb, h)
+		} else {
+			for i := 0; i < cs.K2; i += stride {
+				if g := bad.Sample(i).Tok(); g != tk(int64(i/stride+1)) && i != cs.K2-1 {
+					fail("modified", "rejected buffer: sample %d changed to %d", i, g)
+					break
+				}
+			}
+			if g := bad.Sample(cs.K2 - 1).Tok(); g != 7 {
+				fail("modified", "rejected buffer: last sample changed to %d", g)
+			}
+		}
+		if n := len(ctl.AllFree()); n != free0 {
+			fail("modified", "the pool holds %d items after the rejected Put, %d before", n, free0)
+		}
+		if g1 := pool.Get(); g1.Ptr() == bad.Ptr() {
+			fail("modified", "a following Get returned the rejected buffer")
+		}
 	case "rstriped", "wstriped":
 		var buf dyn.Buf
 		st := s // slices' element type
@@ -242,11 +295,22 @@ func init() {
 					cases = append(cases, c15Case{Fn: "put", S: tn(s), D: tn(s), C1: pk[0], K1: pk[1], C2: pk[2], K2: pk[3]})
 				}
 			}
+			// the zero value of the buffer type as receiver of Append
+			for s := 0; s < dyn.NB; s++ {
+				for c1 := 1; c1 <= 4; c1++ {
+					cases = append(cases, c15Case{Fn: "append0", S: tn(s), D: tn(s), C1: c1})
+				}
+			}
+			// very large foreign buffers offered to small pools (size-dependent shortcuts in front of the check)
+			for _, k2 := range []int{1<<20 + 1, 1<<24 + 1, 1<<26 + 1, 1<<27 + 5} {
+				cases = append(cases, c15Case{Fn: "puthuge", S: "int8", D: "int8", C1: 1, K1: 16, K2: k2})
+			}
+			cases = append(cases, c15Case{Fn: "puthuge", S: "float64", D: "float64", C1: 2, K1: 8, K2: 1<<23 + 1}, c15Case{Fn: "puthuge", S: "int32", D: "int32", C1: 2, K1: 8, K2: 1<<24 + 3})
 			c.ParallelFor(len(cases), func(i int) { c.Check(cases[i], true, c15Run(cases[i])) })
 			c.Sample(cases[0])
 			c.Sample(cases[len(cases)-1])
 			c.Sample(cases[len(cases)/2])
-			c.Set("rule", "the 13 guarded entry points: all 169 conversion instantiations x every ordered pair of different channel counts in 1..4; Append x 13 types x the same pairs; ReadStriped/WriteStriped x 169 pairs x channels 1..4 x slice counts 0..5 (and a nil outer slice) different from the channel count; PoolAllocator.Put x 13 types x pools (C<=3,K<=3) x buffers (C<=4,K<=4) of a different total capacity (incl. 0); operands non-empty, filled with recognisable tokens; plus channel-count pairs (9,10), (64,65), (1,100) and 1100-frame operands for all instantiations and pools up to 20000 samples; oracle: the call panics and both buffers (shape + every sample over the capacity), the caller's slices and the pool's free list (seen through the sync shim) are identical to the snapshot taken before, and a following Get is fresh; every case distinct and non-trivial")
+			c.Set("rule", "the 13 guarded entry points: all 169 conversion instantiations x every ordered pair of different channel counts in 1..4; Append x 13 types x the same pairs; ReadStriped/WriteStriped x 169 pairs x channels 1..4 x slice counts 0..5 (and a nil outer slice) different from the channel count; PoolAllocator.Put x 13 types x pools (C<=3,K<=3) x buffers (C<=4,K<=4) of a different total capacity (incl. 0); operands non-empty, filled with recognisable tokens; plus channel-count pairs (9,10), (64,65), (1,100) and 1100-frame operands for all instantiations and pools up to 20000 samples; the zero value of the buffer type as receiver of Append; foreign buffers of 2^20+1 .. 2^27+5 samples (up to 128 MiB) offered to 16-sample pools; oracle: the call panics and both buffers (shape + every sample over the capacity), the caller's slices and the pool's free list (seen through the sync shim) are identical to the snapshot taken before, and a following Get is fresh; every case distinct and non-trivial")
 			c.Assume("the pool's contents are observed through the sync.Pool shim injected by overlay")
 		},
 		RunCase: func(c *core.Ctx, raw json.RawMessage) []F { return c15Run(decode[c15Case](raw)) },
